@@ -169,6 +169,12 @@ def c01_configs(tier):
             cfgs.append(dict(clients=["c1"], client_of={"t1": "c1"}, lookups={"t1": [0, 1]}, h=h, prefix=0, size_a=na, size_b=0,
                              served={"A": served}, max_grow=2, max_faults=1, fault_kinds=["stale", "forged", "tjunk", "cache"],
                              init_cfgs=[("A", na), None]))
+    # (e) a server that has moved on: it signs a head smaller than its log, no longer has the partial tiles of that size, and
+    #     the full tile it serves instead is damaged (possibly only beyond the part the client needs)
+    tilefaults = ["tjunk", "tswap", "ttruncate", "textend", "tforged"]
+    for na, served, h, k in (((8, 6, 2, 5), (5, 3, 1, 2)) if q else ((8, 6, 2, 5), (8, 7, 2, 6), (5, 3, 1, 2), (9, 5, 2, 4), (12, 10, 3, 9))):
+        cfgs.append(dict(clients=["c1"], client_of={"t1": "c1"}, lookups={"t1": [k]}, h=h, prefix=0, size_a=na, size_b=0,
+                         served={"A": served}, max_faults=1, fault_kinds=tilefaults, partial_gone=True))
     return cfgs
 
 
